@@ -384,6 +384,14 @@ func (s *Store) lookupSecretInternal(ctx context.Context, name string) (Secret, 
 		v, err, _ := s.single.Do("lookup:"+name, func() (any, error) {
 			ledFlight = true
 
+			// A concurrent lookup may have installed the secret after our
+			// caller checked for it and before this flight began. Use that
+			// value rather than fetching again: a second fetch would replace
+			// the installed value without notifying its watchers.
+			if f := s.secretOrNil(name); f != nil {
+				return f, nil
+			}
+
 			// If the winning caller's context doesn't already have a deadline,
 			// impose a safety fallback so requests do not stall forever if the
 			// infrastructure is farkakte.
